@@ -34,7 +34,7 @@ EXHAUSTIVE = {'quick': 'all byte strings of length <=3 over a 35-symbol alphabet
               'thorough': 'all byte strings of length <=4 over a 35-symbol alphabet after 5 prefixes in the proof phase; length <=3 in gamma/claim phases'}
 FLOORS = {
     'quick': {'cases': 100000, 'accepted_both': 1000, 'accepted_nonempty_state': 1000, 'snapshot_accepted': 10,
-              'binary_sampled': 50, 'src:operand_cut_at_end_of_phase': 2000, 'o2_reject:underflow': 10, 'o2_reject:type_confusion': 10, 'o2_reject:bad_index': 10,
+              'binary_sampled': 50, 'binary_large_files': 20, 'src:large_file': 20, 'src:claim_residue_consumed_by_proof': 200, 'src:gamma_residue_consumed_by_claim': 200, 'src:operand_cut_at_end_of_phase': 2000, 'o2_reject:underflow': 10, 'o2_reject:type_confusion': 10, 'o2_reject:bad_index': 10,
               'o2_reject:truncated': 10, 'o2_reject:unknown_opcode': 10, 'o2_reject:rule': 10, 'o2_reject:side_condition': 10,
               'o2_reject:ill_formed': 10, 'o2_reject:constraint': 10, 'o2_reject:capture': 5, 'o2_reject:claim_mismatch': 10,
               'o2_reject:unproved_claims': 10, 'o2_reject:unsupported': 10},
@@ -134,7 +134,7 @@ class Runner:
             elif self.ctx.rng.random() < 0.0005:
                 ctx.sample({'source': src, 'gamma': g.hex()[:80], 'claim': c.hex()[:80], 'proof': p.hex()[:160],
                             'checker': a[:120], 'o2': o2[0] + ' ' + o2[1][:100]})
-            if len(self.for_binary) < 400 and self.ctx.rng.random() < (0.5 if src.startswith('snapshot') else 0.002):
+            if src == 'large_file' or (len(self.for_binary) < 400 and self.ctx.rng.random() < (0.5 if src.startswith('snapshot') else 0.002)):
                 self.for_binary.append((g, c, p, a.split(' ', 1)[0]))
 
     def close(self):
@@ -329,12 +329,41 @@ def shard(ctx):
             trip = [b'', b'', b'']
             trip[phase] = code
             runner.add(*trip, 'operand_cut_at_end_of_phase' if cut < len(ins) else 'operand_complete_at_end_of_phase')
+    # (vii) what one phase leaves on its stack must be gone when the next phase starts ("between phases the stack is cleared"):
+    #       a phase ends with k unconsumed patterns, the next one begins by popping / consuming operands it never pushed
+    PROP1_CLAIM = gs.emit(tb.im(tb.mv(0), tb.im(tb.mv(1), tb.mv(0)))) + b'\x1e'
+    for _ in range(ctx.scale(800, 20000)):
+        k = rng.randint(1, 3)
+        residue = b''.join(gs.emit(gp.rand_concrete(rng, rng.randint(0, 1), syms=(0, 1))) for _ in range(k))
+        consume = rng.choice((b'\x1b', b'\x1b' * k, b'\x05', b'\x06', bytes([8, 0]), bytes([28]), bytes([12, 26, 1, 0]), bytes([137, 0, 10, 0])))
+        if rng.random() < 0.5:
+            # residue of the claim phase, consumed by the proof phase (after a legitimate proof of the one claim, or before it)
+            claim = (residue + PROP1_CLAIM) if rng.random() < 0.5 else (PROP1_CLAIM + residue)
+            proof = rng.choice((b'\x0c\x1e' + consume, consume + b'\x0c\x1e', b'\x0c' + consume + b'\x1b\x0c\x1e'))
+            runner.add(b'', claim, proof, 'claim_residue_consumed_by_proof')
+        else:
+            # residue of the gamma phase, consumed by the claim phase
+            gamma = residue if rng.random() < 0.5 else (gs.emit(tb.sy(0)) + b'\x1e' + residue)
+            runner.add(gamma, consume + PROP1_CLAIM, b'\x0c\x1e', 'gamma_residue_consumed_by_claim')
+        if rng.random() < 0.3:
+            runner.add(b'', residue + PROP1_CLAIM, b'\x0c\x1e', 'claim_residue_unused')     # control: accepted by both
+    # (viii) inputs longer than any I/O buffer (> 64 KiB per file): everything up to the last byte is executed
+    if ctx.shard < 4:
+        pad = bytes([2, 0, 27]) * rng.randint(21900, 30000)        # (EVar 0; Pop)* : leaves the stack as it was
+        for g_, c_, p_ in ((b'', PROP1_CLAIM, b'\x0c\x1e' + pad + b'\xff'),            # unknown opcode after 64 KiB
+                           (b'', PROP1_CLAIM, b'\x0c\x1e' + pad + b'\x1b'),            # underflow after 64 KiB
+                           (b'', PROP1_CLAIM, pad + b'\x0c\x1e'),                      # the only Publish comes late
+                           (b'', PROP1_CLAIM, b'\x0c\x1e' + pad),                      # control
+                           (b'', PROP1_CLAIM + pad + bytes([2, 0, 30]), b'\x0c\x1e'),    # a second, unprovable claim declared late
+                           (pad + b'\xff', PROP1_CLAIM, b'\x0c\x1e'),
+                           (pad + gs.emit(tb.im(tb.sy(0), tb.sy(0))) + b'\x1e', gs.emit(tb.im(tb.sy(0), tb.sy(0))) + b'\x1e', bytes([29, 0, 30]))):  # axiom published late, then used
+            runner.add(g_, c_, p_, 'large_file')
     runner.close()
 
     # real checker binary on files: exit status must agree with the harness verdict
     bins = build.ensure(('checker',))
     sc = ctx.mkscratch()
-    for i, (g, c, p, hv) in enumerate(runner.for_binary[:ctx.scale(1200, 4000) + 20]):
+    for i, (g, c, p, hv) in enumerate([t for t in runner.for_binary if len(t[0]) + len(t[1]) + len(t[2]) > 60000] + runner.for_binary[:ctx.scale(1200, 4000) + 20]):
         (sc / 'g').write_bytes(g); (sc / 'c').write_bytes(c); (sc / 'p').write_bytes(p)
         try:
             r = subprocess.run([str(bins['checker']), str(sc / 'g'), str(sc / 'c'), str(sc / 'p')], capture_output=True, timeout=120)
@@ -342,6 +371,8 @@ def shard(ctx):
             ctx.count('binary_timeout')
             continue
         ctx.count('binary_sampled')
+        if len(g) + len(c) + len(p) > 60000:
+            ctx.count('binary_large_files')
         bv = 'ACCEPT' if r.returncode == 0 else 'REJECT'
         if hv == 'ABORT':
             hv = 'REJECT'
